@@ -108,6 +108,49 @@ def h_options(eng):
     eng.check(Implies(Not(bad), exc is None), "good-options-accepted", note=f"usable options refused: {type(exc).__name__ if exc else None}: {exc}")
 
 
+def h_empty(eng, ligand):
+    """no biomolecule heavy atoms at all (garbage / empty / hetero-only / water-only + --drop-water
+    input) and no ligand: the run must fail and leave no output"""
+    w = flow.World(eng, "r", False, {}, [])
+    empty = eng.flag("no_biomolecule_atoms")
+    w.num_heavy = 0 if empty else 100
+    w.num_missing = 0 if empty else eng.int("num_missing", 0, 100)
+    opts = flow.symbolic_options(eng, fixed=dict(ff=0, pka=0, ligand=ligand), formatting=dict(whitespace=False, keep_chain=False, include_header=False, ffout=0, pdb_output=0, apbs_input=0))
+    eng.assume(And(opts["ph"] >= 0, opts["ph"] <= 14))
+    clean, assign_only = opts["clean"], opts["assign_only"]
+    exc = flow.run_driver(w, opts)
+    pq = _pqr_opens(w)
+    eng.derived["skips_repair_check"] = core.Or(clean, assign_only)
+    eng.derived["empty"] = empty
+    eng.note(f"empty={empty} ligand={ligand} raised={type(exc).__name__ if exc else None} opens={len(pq)}")
+    if empty and not ligand:
+        eng.check(exc is not None and not pq, "empty-input-fails-without-output", note=f"input without any biomolecule heavy atom: run {'raised ' + type(exc).__name__ if exc else 'returned normally'} and opened the output {len(pq)} times")
+
+
+def h_ligand_charge(eng, ff):
+    """the integrality check sees the FINAL charges, including the ligand's"""
+    from checks.c16 import _MolAtom
+
+    q1, q2 = eng.real("q_lig1"), eng.real("q_lig2")
+    eng.assume(And(q1 > -5, q1 < 5, q2 > -5, q2 < 5))
+    w = flow.World(eng, "r", False, {}, [])
+    w.charge_from_atoms = True
+    w.residue_specs = [("ALA", [("N", "ATOM", True), ("CA", "ATOM", True)]), ("LIG", [("L1", "HETATM", False), ("L2", "HETATM", False)])]
+    w.ligand_atoms = {"L1": _MolAtom("L1", q1, 1.7), "L2": _MolAtom("L2", q2, 1.6)}
+    opts = flow.symbolic_options(eng, fixed=dict(ff=ff, pka=0, ligand=1), model=dict(clean=False, assign_only=False, debump=True, opt=True, drop_water=False, neutraln=False, neutralc=False), formatting=dict(whitespace=False, keep_chain=False, include_header=False, ffout=0, pdb_output=0, apbs_input=0))
+    eng.assume(And(opts["ph"] >= 0, opts["ph"] <= 14))
+    exc = flow.run_driver(w, opts)
+    pq = _pqr_opens(w)
+    import math
+
+    t = 0.25 + q1 + q2  # two parameterised protein atoms carry 0.125 each
+    frac = t - (core.SymReal(__import__("z3").ToReal(core.sym_floor(t).t)) if eng.symbolic else math.floor(t))
+    far = And(frac > 0.01, frac < 0.99)
+    eng.note(f"raised={type(exc).__name__ if exc else None} opens={len(pq)}")
+    eng.check(Implies(far, And(exc is not None, not pq)), "nonintegral-total-with-ligand-fails", note=f"protein + ligand charges sum to a non-integer but the run {'succeeded' if exc is None else 'failed'} and opened the output {len(pq)} times")
+    eng.check(Implies(frac == 0, exc is None), "integral-total-with-ligand-succeeds")
+
+
 # ---------------------------------------------------------------------------
 # success side: table lemma (finite, exhaustive, concrete runs of the real pipeline)
 # ---------------------------------------------------------------------------
@@ -166,6 +209,8 @@ def obligations(tier):
         Obligation("charge-ff0-lig0", h_charge, dict(ff=0, ligand=0), group="charge", time_cap=1200),
         Obligation("charge-ff1-lig1", h_charge, dict(ff=1, ligand=1), group="charge", time_cap=1200),
         Obligation("options", h_options, {}, group="options", time_cap=1200),
+        Obligation("empty-input-lig0", h_empty, dict(ligand=0), group="empty", time_cap=1200),
+        Obligation("ligand-charge-ff0", h_ligand_charge, dict(ff=0), group="charge", time_cap=1200),
     ]
     for ff in FFS:
         obs.append(Obligation(f"success-amino-{ff}", table_success, dict(ff=ff, residues=AMINO if tier == "thorough" else AMINO[::3] + ["GLY", "PRO", "HIS"], kind="amino"), kind="table", group="success"))
